@@ -207,6 +207,48 @@ def custom_dual_classes(tier, seed):
     return res
 
 
+def custom_quadric_collection_3d(tier, seed):
+    """3-D QuadricCollection mixing a plane pair with a cone / a cylinder, intersected with lattice lines (supplementary concrete evaluation):
+    every returned point lies on its line and on its quadric"""
+    import time
+    from geometer import Quadric, QuadricCollection, Cone, Cylinder, Plane, Point, Line, LineCollection
+    t0 = time.time()
+    res = {"paths": 1, "forks": 0, "obligations": 0, "ob_total": 0, "violations": [], "inconclusive": [], "samples": [], "by_step": {"evaluated": 0},
+           "outcomes": {}, "reach": {}, "validated": 0, "solver_time": 0.0}
+    pp = Quadric.from_planes(Plane(1, 0, 0, -1), Plane(1, 1, 1, 1))
+    quads = [pp, Cone(Point(0, 0, 0), Point(0, 0, 1), 1), Cylinder(Point(0, 0, 0), Point(0, 0, 1), 1)]
+    lines = [Line(Point(0.5, -3, 2), Point(0.5, 3, 2)), Line(Point(-2, 0.25, 1), Point(2, 0.25, 1)), Line(Point(0, 0, 3), Point(1, 2, 3))]
+    for combo in ((0, 1), (1, 0), (0, 2), (1, 2), (0, 1, 2)):
+        for ln in lines:
+            res["ob_total"] += 1
+            res["obligations"] += 1
+            res["by_step"]["evaluated"] += 1
+            bad = None
+            try:
+                Q = QuadricCollection(np.stack([np.asarray(quads[k].array, dtype=float) for k in combo]))
+                L = LineCollection(np.stack([ln.array] * len(combo)))
+                for pts in Q.intersect(L):
+                    for pos, k in enumerate(combo):
+                        x = np.asarray(pts.array[pos], dtype=complex)
+                        if np.abs(x).max() < 1e-12:
+                            continue
+                        x = x / np.abs(x).max()
+                        A = np.asarray(quads[k].array, dtype=complex)
+                        if abs(x @ A @ x) > 1e-6 * np.abs(A).max():
+                            bad = f"point-not-on-quadric[{k}]"
+                        M = np.asarray(ln.array, dtype=complex)
+                        if np.abs(M @ x).max() > 1e-6 * np.abs(M).max():
+                            bad = bad or f"point-not-on-line[{k}]"
+            except Exception as e:
+                bad = type(e).__name__
+            if bad:
+                name = f"collection{combo}:{bad}"
+                if not any(v["obligation"] == name for v in res["violations"]):
+                    res["violations"].append({"case": "quadric_collection_3d", "obligation": name, "env": {"line": str(np.asarray(ln.array).tolist())[:120]}, "replay": {"failed": [name]}})
+    res["wall"] = time.time() - t0
+    return res
+
+
 def case_sphere_line(ctx):
     """3-D: sphere with free centre / radius and the line through two free points: every returned point lies on both"""
     from geometer import Sphere, Point, Line
@@ -244,5 +286,6 @@ def cases(tier, seed):
         add(f"tangent_polar_conic{k}", mk_tangent_polar(k), tiers=Q if k in (1, 2) else ("attempt",), max_paths=3000)
     add("dual", case_dual, tiers=Q, max_paths=2000)
     cs.append(Case("dual_of_every_class", custom_dual_classes, kind="custom"))
+    cs.append(Case("quadric_collection_3d", custom_quadric_collection_3d, kind="custom"))
     add("sphere_line_3d", case_sphere_line, tiers=("attempt",), max_paths=3000)
     return cs
